@@ -172,7 +172,9 @@ _installed = False
 
 def _path_is_point(p):
     s = _current
-    if s is None or getattr(_state, "m", None) is None or getattr(_state, "inside", False):
+    if s is None or getattr(_state, "inside", False):
+        return None
+    if getattr(_state, "m", None) is None and not getattr(s, "any_thread", False):
         return None
     if isinstance(p, bytes):
         try:
@@ -186,7 +188,7 @@ def _path_is_point(p):
         return None
     rel = ap[len(s.root):].lstrip(os.sep)
     parts = rel.split(os.sep)
-    if "objects" in parts:
+    if "objects" in parts and not getattr(s, "include_objects", False):
         return None
     return rel or "."
 
@@ -200,7 +202,10 @@ def _wrap(name, argidx=(0,)):
                 if i < len(a):
                     rel = _path_is_point(a[i])
                     if rel is not None:
-                        _current.point("%s:%s" % (name, rel))
+                        lab = name
+                        if name == "open" and len(a) > 1 and isinstance(a[1], int) and a[1] & (os.O_WRONLY | os.O_RDWR | os.O_CREAT):
+                            lab = "open-w"
+                        _current.point("%s:%s" % (lab, rel))
                         break
         return real(*a, **kw)
 
@@ -339,3 +344,51 @@ def explore(run_one, bound, max_executions=None, on_execution=None):
 
     rec([])
     return count[0], capped[0]
+
+
+# -- fault injection (environment deviations for E1) ---------------------------
+
+MUTATING_PREFIXES = ("open-w:", "open(w", "open(a", "open(x", "open(r+", "mkdir:", "rename:", "replace:", "write:", "close:", "link:")
+
+
+class FaultInjector:
+    """Makes the k-th mutating file-system call under root fail with OSError(errno).
+
+    Installed as the shim controller for the duration of ONE request; counts in
+    every thread (updates run in executor threads).  With k=None it only counts.
+    """
+
+    any_thread = True
+    include_objects = True
+
+    def __init__(self, root, k=None, err=28):
+        self.root = os.path.realpath(root)
+        self.k = k
+        self.err = err
+        self.count = 0
+        self.fired = None
+        self.labels = []
+        self.lock = threading.Lock()
+
+    def point(self, label):
+        if not label.startswith(MUTATING_PREFIXES):
+            return
+        with self.lock:
+            i = self.count
+            self.count += 1
+            self.labels.append(label)
+        if self.k is not None and i == self.k and self.fired is None:
+            self.fired = label
+            raise OSError(self.err, os.strerror(self.err))
+
+    def __enter__(self):
+        global _current
+        install_shims()
+        self._saved = _current
+        _current = self
+        return self
+
+    def __exit__(self, *a):
+        global _current
+        _current = self._saved
+        return False
